@@ -189,8 +189,16 @@ def _m_lockf(ex, args, kw):
     l = ex.inputs["self"]
     if not isinstance(l, Obj) or "g_other_proc_holds" not in l.fields:
         raise OutOfReach("fcntl.lockf outside the mailbox lock contract")
+    # the record lock covers exactly the terminal's byte: a wider range (or the
+    # default "whole file") would take or drop the locks this process holds
+    # for other terminals of the same lock file
+    ln = args[2] if len(args) > 2 else 0
+    start = args[3] if len(args) > 3 else 0
+    ex.check(f"{ex.target_short}.lockf.range[exactly the terminal's counter byte]",
+             mk_bool(z3.And(lift_int(ln) == 1, lift_int(start) == lift_int(l.fields["no"]))),
+             "fcntl.lockf(fd, cmd, 1, no): length 1 at offset `no` (length 0 means: to the end of the file)")
     if isinstance(cmd, int) and cmd & fcntl.LOCK_UN:
-        ex.check("lockf.release.requires[counter written back first]",
+        ex.check(f"{ex.target_short}.lockf.release.requires[counter written back first]",
                  lift_bool(l.fields.get("g_written_back", False)),
                  "the byte is re-established (counter written back) before the range is unlocked")
         l.fields["g_lockf"] = False
